@@ -151,7 +151,7 @@ def audit_props(pid):
     checks = re.findall(r"\bCheck\s+([A-Za-z0-9_']+)\s*:", src)
     prints = re.findall(r"\bPrint\s+Assumptions\s+([A-Za-z0-9_']+)", src)
     res["pinned"] = checks
-    ok, out = build_coq([f"Props/{pid}.vo"])
+    ok, out = build_coq([f"Props/{pid}.vo", "Model/Obs.vo"])     # Obs.vo: the observation functions the correspondence evaluates
     if not ok:
         res["log"] = out[-3000:]
         return res
@@ -182,9 +182,12 @@ class Server:
         self.start()
 
     def start(self):
+        cwd = os.path.join(TMP, "server_cwd")       # ex commands such as :w create files: keep them out of /verif
+        os.makedirs(cwd, exist_ok=True)
         self.p = subprocess.Popen([self.binary, "--verif-serve"], stdin=subprocess.PIPE,
                                   stdout=subprocess.PIPE, stderr=subprocess.DEVNULL, text=True,
-                                  encoding="utf-8", bufsize=1)
+                                  encoding="utf-8", bufsize=1, cwd=cwd,
+                                  env=dict(os.environ, SHELL=os.environ.get("VERIF_SERVER_SHELL", "/bin/true")))   # :! and :r ! run nothing
 
     def ask(self, req):
         try:
